@@ -249,3 +249,11 @@ func readAll(path string) []byte {
 	}
 	return b
 }
+
+func mustMkdir(d string) {
+	if err := os.MkdirAll(d, 0o755); err != nil {
+		panic(err)
+	}
+}
+
+func removeAll(d string) { os.RemoveAll(d) }
